@@ -203,7 +203,8 @@ impl Model for DefaultModel {
     ) -> bool {
         if let Some(ast_map) = self.model.get_mut(sec) {
             if let Some(ast) = ast_map.get_mut(ptype) {
-                return ast.policy.insert(rule);
+                // `insert` would move an existing rule to the back
+                return ast.policy.replace(rule).is_none();
             }
         }
         false
@@ -224,7 +225,9 @@ impl Model for DefaultModel {
                         return all_added;
                     }
                 }
-                ast.policy.extend(rules);
+                for rule in rules {
+                    ast.policy.replace(rule);
+                }
             }
         }
         all_added
